@@ -568,7 +568,7 @@ def subscript(eng: Any, obj: Any, idx: Any) -> Any:
         obj = eng.alias[id(obj)]
     if hasattr(obj, "pyvc_getitem"):
         return obj.pyvc_getitem(eng, idx)
-    if isinstance(obj, SObj) or eng.is_repo_object(obj):
+    if isinstance(obj, SObj) or (eng.is_repo_object(obj) and not isinstance(obj, type)):
         return eng.call_dunder(obj, "__getitem__", [idx])
     if isinstance(obj, type) and not sym.is_sym(idx):
         m = type(obj)
